@@ -9,7 +9,7 @@ S=/tmp/seedwt-$ID-$K
 git -C /repo worktree remove --force $S 2>/dev/null; rm -rf $S
 git -C /repo worktree add -q --detach $S HEAD || exit 2
 cd $S
-cp -r $RAW seeded
+cp -r $RAW seeded; grep -rl "/tmp/wt/$ID" seeded 2>/dev/null | xargs -r sed -i "s#/tmp/wt/$ID#$S#g"
 echo "== apply"; git apply seeded/change$K.diff 2>&1 || { patch -p1 < seeded/change$K.diff || { echo APPLY-FAILED; exit 3; }; }
 git diff --stat | tail -2
 echo "== build"; go build ./... 2>&1 | tail -3
